@@ -177,6 +177,29 @@ theorem hasExp_render (l : DecLit) : (hasChar 'e' l.render || hasChar 'E' l.rend
     hasChar_pointPart l 'e' (by decide) (hasChar_e_render _), hasChar_pointPart l 'E' (by decide) (hasChar_E_render _)]
   exact hasExp_expPart l
 
+theorem startsWithAny_hex (cs : List Char) :
+    startsWithAny [[Char.ofNat 48, Char.ofNat 120], [Char.ofNat 48, Char.ofNat 88]] cs = startsHex cs := by
+  have h0 : (Char.ofNat 48) = '0' := by decide
+  have hx : (Char.ofNat 120) = 'x' := by decide
+  have hX : (Char.ofNat 88) = 'X' := by decide
+  rw [h0, hx, hX]
+  match cs with
+  | [] => rfl
+  | [a] => simp [startsWithAny, startsHex, List.isPrefixOf]
+  | a :: c :: r =>
+    simp only [startsWithAny, startsHex, List.any_cons, List.any_nil, List.isPrefixOf, Bool.or_false, Bool.and_true]
+    by_cases ha : a = '0'
+    · subst ha
+      by_cases h1 : c = 'x'
+      · subst h1; decide
+      · by_cases h2 : c = 'X'
+        · subst h2; decide
+        · have h1' : ('x' == c) = false := by simpa using Ne.symm h1
+          have h2' : ('X' == c) = false := by simpa using Ne.symm h2
+          simp [h1, h2, h1', h2']
+    · have ha' : ('0' == a) = false := by simpa using Ne.symm ha
+      simp [ha, ha']
+
 theorem startsHex_cons_ne (a : Char) (r : List Char) (h : a ≠ '0') : startsHex (a :: r) = false := by
   cases r <;> simp [startsHex, h]
 
